@@ -6,4 +6,5 @@ CONSTANTS
   FixD3 = TRUE
   FixD10 = FALSE
   FixD12 = TRUE
+  FixD17 = TRUE
 INVARIANT C13_EveryScheduledWatchRuns
